@@ -85,6 +85,14 @@ func (m *Machine) timeVal(wall uint64, ext Int) Val {
 
 func timeExt(v Val) Int { return v.(Struct).F[1].V.(Int) }
 
+// setTimeYear records the calendar year of the time value whose ext field is the (fresh) term ext.
+func (m *Machine) setTimeYear(ext Int, year Int) {
+	if m.timeYear == nil {
+		m.timeYear = map[string]Int{}
+	}
+	m.timeYear[ext.T()] = year
+}
+
 func (m *Machine) strHasPrefix(s, p Str) Bool {
 	if s.IsC() && p.IsC() {
 		return CB(strings.HasPrefix(s.C, p.C))
@@ -698,13 +706,52 @@ func init() {
 		"(time.Time).Equal": func(m *Machine, a []Val) Val {
 			return m.intBin(token.EQL, timeExt(a[0]), timeExt(a[1]), true)
 		},
-		"(time.Time).Year":    func(m *Machine, a []Val) Val { return m.ex.NondetBV("year", 64) },
-		"(time.Time).AddDate": func(m *Machine, a []Val) Val { return m.timeVal(1, m.ex.NondetBV("adddate", 64)) },
+		"(time.Time).Year": func(m *Machine, a []Val) Val {
+			if y, ok := m.timeYear[timeExt(a[0]).T()]; ok {
+				return y
+			}
+			return m.ex.NondetBV("year", 64)
+		},
+		"(time.Time).AddDate": func(m *Machine, a []Val) Val {
+			ext := m.ex.NondetBV("adddate", 64)
+			// whole years added to a time whose calendar year is known (a parsed two-digit year): month and day
+			// are kept, the year moves by that many (time.AddDate contract; Feb 29 normalisation leaves the year alone)
+			if y, ok := m.timeYear[timeExt(a[0]).T()]; ok {
+				mo, d := a[2].(Int), a[3].(Int)
+				if mo.IsC() && d.IsC() && mo.C == 0 && d.C == 0 {
+					m.setTimeYear(ext, m.add(y, a[1].(Int)))
+				}
+			}
+			return m.timeVal(1, ext)
+		},
 		"(time.Time).Format":  func(m *Machine, a []Val) Val { return m.ex.NondetStr("timefmt") },
 		"(time.Time).UTC":     func(m *Machine, a []Val) Val { return a[0] },
 		"time.Parse": func(m *Machine, a []Val) Val {
 			if m.ex.Branch(m.ex.NondetBool("timeparse_ok")) {
-				return Tuple{m.timeVal(1, m.ex.NondetBV("parsedtime", 64)), nilErr()}
+				ext := m.ex.NondetBV("parsedtime", 64)
+				// layout starting with the two-digit year "06": a successful parse read two decimal digits yy and
+				// (documented rule of package time) yy >= 69 means 19yy, yy < 69 means 20yy
+				if lay, ok := a[0].(Str); ok && lay.IsC() && strings.HasPrefix(lay.C, "06") {
+					if v, ok := a[1].(Str); ok && (v.IsB || v.IsC()) {
+						bs := m.strBytes(v)
+						if len(bs) < 2 {
+							m.ex.Assume(CB(false))
+						} else {
+							d0, d1 := m.resize(bs[0], 64, false), m.resize(bs[1], 64, false)
+							for _, d := range []Int{d0, d1} {
+								m.ex.Assume(Not(m.intBin(token.LSS, d, CI(64, '0'), false).(Bool)))
+								m.ex.Assume(Not(m.intBin(token.GTR, d, CI(64, '9'), false).(Bool)))
+							}
+							yy := m.add(m.intBin(token.MUL, m.sub(d0, CI(64, '0')), CI(64, 10), false).(Int), m.sub(d1, CI(64, '0')))
+							if m.ex.Branch(m.intBin(token.GEQ, yy, CI(64, 69), false).(Bool)) {
+								m.setTimeYear(ext, m.add(yy, CI(64, 1900)))
+							} else {
+								m.setTimeYear(ext, m.add(yy, CI(64, 2000)))
+							}
+						}
+					}
+				}
+				return Tuple{m.timeVal(1, ext), nilErr()}
 			}
 			return Tuple{m.timeVal(0, CI(64, 0)), m.newErr("time.Parse")}
 		},
